@@ -275,6 +275,7 @@ type c16Arr struct {
 	kind  string
 	loads [][]string // documents per load, each a list of fragment texts
 	fs    bool       // single load through ParseFS
+	rd    bool       // loads through ParseReader over a reader that returns short reads
 	ext   bool       // members moved to extend blocks
 }
 
@@ -331,6 +332,11 @@ func c16Load(t *tape.Tape, a *c16Arr) (r c16Result) {
 			default:
 				err = root.ParseFS(fsys, "*.graphql")
 			}
+		} else if a.rd {
+			// through ParseReader, the text arriving in short reads
+			r := iosim.NewReader([]byte(strings.Join(l, "")), iosim.Plan{})
+			r.Chunk = 1 + t.Draw(50)
+			err = root.ParseReader(r)
 		} else {
 			err = root.ParseString(strings.Join(l, ""))
 		}
@@ -686,6 +692,10 @@ func (c C16) Run(t *tape.Tape, opt core.RunOpt) (res core.Result) {
 				}
 			}
 			a.loads = [][]string{perm(l)}
+		}
+		if !a.fs && t.Bool(1, 4) {
+			a.rd = true
+			a.kind += "+reader"
 		}
 		got := c16Load(t, a)
 		res.Evaluations++
